@@ -1674,4 +1674,200 @@ theorem computeRootAux_range {H : HashFn} : ∀ (fuel : Nat) {L : List NsHash} {
       have RR := ih hdne (fun x hx => hleaf x (List.mem_of_mem_drop hx)) hsd hr
       exact range_node hk1 hklt hleaf hsort RL RR hn
 
+/-! ## Collision-freeness RELATIVE to the byte strings actually hashed
+
+`HashOK` (injective on ALL byte strings with 32-byte output) is contradictory (pigeonhole), so theorems that assume it
+are vacuous.  The satisfiable formulation: the hash has no collision among an explicitly given set `S` of inputs — the
+inputs hashed by the two computations a theorem compares (honest roots, verifier). -/
+
+/-- `H` has no collision among the inputs satisfying `S` -/
+def NoCollOn (H : HashFn) (S : Bytes → Prop) : Prop := ∀ a b, S a → S b → H a = H b → a = b
+
+/-- 32-byte output and no collision among the inputs in `S` -/
+structure HashOKOn (H : HashFn) (S : Bytes → Prop) : Prop where
+  inj : NoCollOn H S
+  len : HashLen H
+
+theorem NoCollOn.mono {H : HashFn} {S S' : Bytes → Prop} (h : NoCollOn H S) (hs : ∀ x, S' x → S x) : NoCollOn H S' :=
+  fun a b ha hb => h a b (hs a ha) (hs b hb)
+
+theorem HashOKOn.mono {H : HashFn} {S S' : Bytes → Prop} (h : HashOKOn H S) (hs : ∀ x, S' x → S x) : HashOKOn H S' :=
+  ⟨h.inj.mono hs, h.len⟩
+
+theorem HashOKOn.hlen {H : HashFn} {S : Bytes → Prop} (hk : HashOKOn H S) : HashLen H := hk.len
+
+/-- a violation of `NoCollOn` is an explicit collision among inputs of `S` -/
+def CollisionIn (H : HashFn) (S : Bytes → Prop) : Prop := ∃ x y, S x ∧ S y ∧ x ≠ y ∧ H x = H y
+
+theorem noCollOn_or_collision (H : HashFn) (S : Bytes → Prop) : NoCollOn H S ∨ CollisionIn H S := by
+  by_cases h : NoCollOn H S
+  · exact Or.inl h
+  · right
+    apply Classical.byContradiction
+    intro hn
+    apply h
+    intro a b ha hb hab
+    apply Classical.byContradiction
+    intro hne
+    exact hn ⟨a, b, ha, hb, hne, hab⟩
+
+/-- the byte string hashed for a leaf: `0x00 ‖ ns ‖ data` -/
+def leafInput (ns d : Bytes) : Bytes := LEAF_PREFIX :: (ns ++ d)
+/-- the byte string hashed for an inner node: `0x01 ‖ left ‖ right` -/
+def nodeInput (l r : NsHash) : Bytes := NODE_PREFIX :: (l.toBytes ++ r.toBytes)
+
+/-- `x` is the hash of a leaf with a 29-byte namespace whose preimage is among the inputs in `S` -/
+def IsLeafOn (H : HashFn) (S : Bytes → Prop) (x : NsHash) : Prop :=
+  ∃ ns d, ns.length = NS_SIZE ∧ x = hashLeaf H ns d ∧ S (leafInput ns d)
+
+def AllLeafOn (H : HashFn) (S : Bytes → Prop) (L : List NsHash) : Prop := ∀ x ∈ L, IsLeafOn H S x
+
+theorem IsLeafOn.isLeaf {H : HashFn} {S : Bytes → Prop} {x : NsHash} (h : IsLeafOn H S x) : IsLeaf H x := by
+  obtain ⟨ns, d, hl, hx, _⟩ := h; exact ⟨ns, d, hl, hx⟩
+theorem AllLeafOn.allLeaf {H : HashFn} {S : Bytes → Prop} {L : List NsHash} (h : AllLeafOn H S L) : AllLeaf H L :=
+  fun x hx => (h x hx).isLeaf
+theorem AllLeafOn.take {H : HashFn} {S : Bytes → Prop} {L : List NsHash} (h : AllLeafOn H S L) (n : Nat) :
+    AllLeafOn H S (L.take n) := fun x hx => h x (List.mem_of_mem_take hx)
+theorem AllLeafOn.drop {H : HashFn} {S : Bytes → Prop} {L : List NsHash} (h : AllLeafOn H S L) (n : Nat) :
+    AllLeafOn H S (L.drop n) := fun x hx => h x (List.mem_of_mem_drop hx)
+theorem AllLeafOn.mono {H : HashFn} {S S' : Bytes → Prop} {L : List NsHash} (h : AllLeafOn H S L) (hs : ∀ x, S x → S' x) :
+    AllLeafOn H S' L := by
+  intro x hx; obtain ⟨ns, d, hl, he, hS⟩ := h x hx; exact ⟨ns, d, hl, he, hs _ hS⟩
+
+/-- inputs hashed by `compute_root` over the leaf hashes `ls` (the inner nodes; leaves are hashed before) -/
+def rootInputs (H : HashFn) (ign : Bool) : Nat → List NsHash → List Bytes
+  | 0, _ => []
+  | fuel + 1, ls =>
+    match ls with
+    | [] => []
+    | [_] => []
+    | _ =>
+      let k := nextSmallerPo2 ls.length
+      rootInputs H ign fuel (ls.take k) ++ rootInputs H ign fuel (ls.drop k) ++
+        (match computeRootAux H ign fuel (ls.take k), computeRootAux H ign fuel (ls.drop k) with
+         | .ok l, .ok r => [nodeInput l r]
+         | _, _ => [])
+
+/-- inputs hashed by the root computation of a perfect tree of depth `j` -/
+def perfectInputs (H : HashFn) (ign : Bool) : Nat → List NsHash → List Bytes
+  | 0, _ => []
+  | j + 1, L =>
+    perfectInputs H ign j (L.take (2 ^ j)) ++ perfectInputs H ign j (L.drop (2 ^ j)) ++
+      (match perfectRoot H ign j (L.take (2 ^ j)), perfectRoot H ign j (L.drop (2 ^ j)) with
+       | .ok l, .ok r => [nodeInput l r]
+       | _, _ => [])
+
+/-- inputs hashed by `check_range_proof_inner` (the `hash_nodes` calls of the recursion) -/
+def innerInputs (H : HashFn) (ign : Bool) :
+    Nat → List NsHash → List NsHash → Nat → Nat → Nat → List Bytes
+  | 0, _, _, _, _, _ => []
+  | fuel + 1, leaves, proof, start, size, offset =>
+    let split := nextSmallerPo2 size
+    if leaves.length + start = 0 then []
+    else
+      let endIdx := leaves.length + start - 1
+      let rIn : List Bytes :=
+        if endIdx ≥ split + offset then
+          if size - split = 1 then [] else innerInputs H ign fuel leaves proof start (size - split) (offset + split)
+        else []
+      let rightRes : Except Err (NsHash × List NsHash × List NsHash) :=
+        if endIdx ≥ split + offset then
+          let rsize := size - split
+          if rsize = 1 then
+            match takeLast? leaves with
+            | none => .error .missingLeaf
+            | some (x, rest) => .ok (x, rest, proof)
+          else checkRangeProofInner H ign fuel leaves proof start rsize (offset + split)
+        else
+          match takeLast? proof with
+          | none => .error .missingProofNode
+          | some (x, rest) => .ok (x, leaves, rest)
+      match rightRes with
+      | .error _ => rIn
+      | .ok (right, leaves1, proof1) =>
+        let lIn : List Bytes :=
+          if start < split + offset then
+            if split = 1 then [] else innerInputs H ign fuel leaves1 proof1 start split offset
+          else []
+        let leftRes : Except Err (NsHash × List NsHash × List NsHash) :=
+          if start < split + offset then
+            if split = 1 then
+              match takeLast? leaves1 with
+              | none => .error .missingLeaf
+              | some (x, rest) => .ok (x, rest, proof1)
+            else checkRangeProofInner H ign fuel leaves1 proof1 start split offset
+          else
+            match takeLast? proof1 with
+            | none => .error .missingProofNode
+            | some (x, rest) => .ok (x, leaves1, rest)
+        match leftRes with
+        | .error _ => rIn ++ lIn
+        | .ok (left, _, _) => rIn ++ lIn ++ [nodeInput left right]
+
+/-- inputs hashed by `check_range_proof(root, leaves, proof, start)` -/
+def proofInputs (H : HashFn) (ign : Bool) (leaves proof : List NsHash) (start : Nat) : List Bytes :=
+  if leaves.length = 0 then []
+  else if leaves.length = 1 ∧ proof.isEmpty then []
+  else
+    let numLeft := computeNumLeftSiblings start
+    if proof.length < numLeft then []
+    else
+      match computeTreeSize (proof.length - numLeft) (start + leaves.length - 1) with
+      | .error _ => []
+      | .ok treeSize => innerInputs H ign treeSize leaves proof start treeSize 0
+
+/-! ### the five uses of injectivity, with membership side conditions -/
+
+theorem hashNodes_hash_inj_on {H : HashFn} {S : Bytes → Prop} (hi : NoCollOn H S) {ign ign' : Bool}
+    {l r l' r' h h' : NsHash} (wl : l.WF) (wr : r.WF) (wl' : l'.WF) (wr' : r'.WF)
+    (e : hashNodes H ign l r = .ok h) (e' : hashNodes H ign' l' r' = .ok h')
+    (hS : S (nodeInput l r)) (hS' : S (nodeInput l' r')) (hh : h.hash = h'.hash) : l = l' ∧ r = r' := by
+  unfold hashNodes at e e'
+  split at e
+  · cases e
+  · split at e'
+    · cases e'
+    · injection e with e; injection e' with e'
+      subst e; subst e'
+      have := hi _ _ hS hS' hh
+      unfold nodeInput at this
+      injection this with _ this
+      have h1 := List.append_inj this (by rw [toBytes_length wl, toBytes_length wl'])
+      exact ⟨toBytes_inj wl wl' h1.1, toBytes_inj wr wr' h1.2⟩
+
+theorem leaf_ne_node_on {H : HashFn} {S : Bytes → Prop} (hi : NoCollOn H S) {ign : Bool} {ns d : Bytes} {l r h : NsHash}
+    (e : hashNodes H ign l r = .ok h) (hS : S (leafInput ns d)) (hS' : S (nodeInput l r))
+    (hh : (hashLeaf H ns d).hash = h.hash) : False := by
+  unfold hashNodes at e
+  split at e
+  · cases e
+  · injection e with e
+    subst e
+    have := hi _ _ hS hS' hh
+    simp [leafInput, nodeInput, LEAF_PREFIX, NODE_PREFIX] at this
+
+theorem hashLeaf_inj_on {H : HashFn} {S : Bytes → Prop} (hi : NoCollOn H S) {ns ns' d d' : Bytes}
+    (hl : ns.length = ns'.length) (hS : S (leafInput ns d)) (hS' : S (leafInput ns' d'))
+    (hh : (hashLeaf H ns d).hash = (hashLeaf H ns' d').hash) : ns = ns' ∧ d = d' := by
+  have := hi _ _ hS hS' hh
+  unfold leafInput at this
+  injection this with _ this
+  exact List.append_inj this hl
+
+theorem emptyRoot_ne_node_on {H : HashFn} {S : Bytes → Prop} (hi : NoCollOn H S) {ign : Bool} {l r h : NsHash}
+    (e : hashNodes H ign l r = .ok h) (hE : S []) (hS : S (nodeInput l r)) (hh : (emptyRoot H).hash = h.hash) : False := by
+  unfold hashNodes at e
+  split at e
+  · cases e
+  · injection e with e
+    subst e
+    have := hi _ _ hE hS hh
+    simp [nodeInput] at this
+
+theorem emptyRoot_ne_leaf_on {H : HashFn} {S : Bytes → Prop} (hi : NoCollOn H S) {ns d : Bytes}
+    (hE : S []) (hS : S (leafInput ns d)) (hh : (emptyRoot H).hash = (hashLeaf H ns d).hash) : False := by
+  have := hi _ _ hE hS hh
+  simp [leafInput] at this
+
+
 end Lumina.Proofs.Nmt
